@@ -90,7 +90,7 @@ func sortNPMVersions(vs []Version) {
 		} else {
 			allPrerelease = false
 		}
-		if tags, _ := v.GetAttr(version.Tags); strings.Contains(tags, "latest") {
+		if tags, _ := v.GetAttr(version.Tags); strings.Contains(","+tags+",", ",latest,") {
 			latestIdx = i
 			latestIsPrerelease = vers[v.VersionKey] != nil && vers[v.VersionKey].IsPrerelease()
 		}
